@@ -27,6 +27,7 @@ type params struct {
 	Restart   bool     // explore a restart between reorg and continuation
 	Nested    bool     // explore a second reorg inside / at / above the continuation
 	AfterFull bool     // block after the second reorg: full alphabet (else: none or the continuation's kind)
+	Reader    bool     // explore a concurrent reader holding a pooled connection while the first reorg runs
 	NestedMax int      // a second reorg is explored only for continuations of at most this length (0: any)
 }
 
@@ -68,16 +69,16 @@ func units(tier string) []mc.Unit {
 			}
 			add(n, full, func(h []string) *params {
 				if tier == "thorough" {
-					return &params{MaxCont: 1 + b2i(len(h) <= 3), ContKinds: full, Restart: true, Nested: len(h) <= 3, AfterFull: len(h) <= 2}
+					return &params{MaxCont: 1 + b2i(len(h) <= 3), ContKinds: full, Restart: true, Nested: len(h) <= 3, AfterFull: len(h) <= 2, Reader: len(h) <= 3}
 				}
-				return &params{MaxCont: 1, ContKinds: full, Restart: true, Nested: len(h) <= 2, AfterFull: true}
+				return &params{MaxCont: 1, ContKinds: full, Restart: true, Nested: len(h) <= 2, AfterFull: true, Reader: len(h) <= 2}
 			})
 			continue
 		}
 		if tier == "quick" {
 			add(2, full, func(h []string) *params {
 				if len(h) == 1 {
-					return &params{MaxCont: 2, ContKinds: full, Restart: true, Nested: true, NestedMax: 1}
+					return &params{MaxCont: 2, ContKinds: full, Restart: true, Nested: true, NestedMax: 1, Reader: true}
 				}
 				return &params{MaxCont: 1, ContKinds: full, Restart: true}
 			})
@@ -91,9 +92,9 @@ func units(tier string) []mc.Unit {
 			add(3, full, func(h []string) *params {
 				switch len(h) {
 				case 1:
-					return &params{MaxCont: 2, ContKinds: full, Restart: true, Nested: true, AfterFull: true}
+					return &params{MaxCont: 2, ContKinds: full, Restart: true, Nested: true, AfterFull: true, Reader: true}
 				case 2:
-					return &params{MaxCont: 2, ContKinds: full, Restart: true, Nested: true}
+					return &params{MaxCont: 2, ContKinds: full, Restart: true, Nested: true, Reader: true}
 				}
 				return &params{MaxCont: 1, ContKinds: full, Restart: true}
 			})
@@ -155,7 +156,14 @@ func run(c *mc.Ctx, u mc.Unit) {
 		return true
 	}
 	b := uint64(1 + c.Choose(n+2, "reorg-point"))
-	if !reorg(b) {
+	release := func() {}
+	if p.Reader && c.Bool("reader-holds-a-connection-during-the-reorg") {
+		release = a.HoldReader()
+		c.Witness("reorg_on_a_second_pooled_connection")
+	}
+	ok1 := reorg(b)
+	release()
+	if !ok1 {
 		return
 	}
 	if p.Restart && c.Bool("restart-after-reorg") {
